@@ -6,4 +6,6 @@ CONSTANTS
 INVARIANT SplitConcat
 INVARIANT HeaderClean
 INVARIANT HeaderKept
+INVARIANT HeaderWhole
+INVARIANT FooterWhole
 CHECK_DEADLOCK FALSE
